@@ -241,6 +241,7 @@ def run(ctx):
     c01.check_der(ctx, "C16.9")
     check_multikey_order(ctx)
     check_pubkey_form(ctx)
+    check_multisig_dummy(ctx)
     c01.check_sig_modes(ctx, "C16.9")  # every signature of send_tx is made by bits.sig: digest = HASH256(message || type), type byte appended
     c05.check_writer(ctx, "C16.9")
     from . import c14
@@ -277,6 +278,52 @@ def check_multikey_order(ctx, oid="C16.10"):
         R.check(oid, "PROV", fi, "sender kind %s with two keys: signatures made with the caller's keys in the caller's order (%d signing sites)" % (kind, len(sites)),
                 bool(sites) and not bad, "the keys at a signing site are %s, not [key 0, key 1] as given" % ([tm.show(k)[:90] for k in bad[0]] if bad else "missing"),
                 example="a 2-of-3 script whose public keys are not in lexicographic order")
+    ev.assumptions, ev.bind = {}, {}
+
+
+def check_multisig_dummy(ctx, oid="C16.12"):
+    """OP_CHECKMULTISIG pops one element more than it uses: a script-hash sender whose script is a multisig script needs the
+    dummy in front of the signatures -- for every number of keys, also ONE (1-of-n). Evaluated with the script's own test
+    answered "it ends in OP_CHECKMULTISIG": every unlocking stack that ends with the redeem / witness script starts with the
+    dummy. (A test of another form leaves the stack conditional: not read.)"""
+    R = ctx.R
+    fi = ctx.fn("bits.tx.send_tx")
+    ev = ctx.evaluator(opaque=OPQ)
+    sk = P("sender_keys", tm.LIST)
+    flag = P("sighash_flag", tm.ANY)
+    dec0 = tm.app("bits.utils.wif_decode", [tm.idx(sk, 0), True], ty=tm.ANY)
+    scripts = [tm.hexs(tm.unhex(T("field", (dec0, "data")))), tm.hexs(tm.unhex(tm.idx(dec0, "data"))), T("field", (dec0, "data")), tm.idx(dec0, "data")]
+
+    def is_multisig_test(c):
+        if isinstance(c, T) and c.op == "cmp" and c.args[0] in ("eq", "ne") and "OP_CHECKMULTISIG" in (c.args[1], c.args[2]):
+            return c.args[0] == "eq"
+        return None
+    n_read = 0
+    for kind in ("p2sh", "p2wsh", "p2sh-p2wsh"):
+        for nkeys in (1, 2):
+            ev.assumptions = {tm.truth(sk): True, tm.cmp("is", flag, None): False, tm.cmp("gt", tm.length(sk), 1): nkeys > 1}
+            ev.bind = {tm.length(sk): nkeys}
+            for i in range(nkeys):
+                d_ = tm.app("bits.utils.wif_decode", [tm.idx(sk, i), True], ty=tm.ANY)
+                ev.bind[T("field", (d_, "addr_type"))] = kind
+                ev.bind[tm.idx(d_, "addr_type")] = kind
+            ev.assume_fn = is_multisig_test
+            s = ev.run(fi)
+            ev.assume_fn = None
+            stacks = []
+            for c in s.calls:
+                if c[0] == "bits.script.utils.script" and c[1]:
+                    items = rules.unfz(c[1][0])
+                    if isinstance(items, (list, tuple)) and items and any(tm.veq(rules.unfz(items[-1]), w) for w in scripts):
+                        stacks.append(list(items))
+            if not stacks:
+                continue  # the stack is built in a form this does not read (conditional, or by another builder)
+            n_read += 1
+            bad = [st for st in stacks if not (len(st) >= 2 and rules.unfz(st[0]) in ("OP_0", "OP_FALSE", "", "00"))]
+            R.check(oid, "TERM-EQ", fi, "sender kind %s with %d key%s and a CHECKMULTISIG script: the unlocking stack starts with the dummy element (%d stacks)" % (kind, nkeys, "" if nkeys == 1 else "s", len(stacks)),
+                    not bad, "the unlocking stack is %s: no dummy element in front of the signatures" % ([tm.show(x)[:40] for x in bad[0]] if bad else ""),
+                    example="a 1-of-2 multisig %s sender" % kind if nkeys == 1 else "a 2-of-3 multisig %s sender" % kind)
+    R.stat("multisig_dummy_scenarios_read", n_read)
     ev.assumptions, ev.bind = {}, {}
 
 
